@@ -12,6 +12,7 @@ from .. import AnalysisError
 from ..canon import canon, linform, single_assignments
 from ..deg import POLY, TOP, DegChecker
 from ..lin import lin_eq
+from ..pat import find_expr, find_stmt, match_expr, match_stmt
 from ..pm import src
 from ..q import FA, call_name, compare_parts, const, is_neg_inf, is_self_attr, walk_no_nested
 
@@ -21,9 +22,24 @@ ST = "nessai.evidence:_NSIntegralState"
 EXPECTED = {"logt": "-(1 / n)", "t": "-log1p(1 / n)"}
 
 
-def shrinkage_branches(fi, nvar):
-    """{mode literal: canonical logt expression} from an if/elif chain on the expectation string."""
+def _single_target_assign(stmts):
+    a = [s for s in stmts if isinstance(s, ast.Assign) and len(s.targets) == 1 and isinstance(s.targets[0], ast.Name)]
+    return a[0] if len(a) == 1 and len(stmts) <= 2 else None
+
+
+def _canon_shrinkage(value):
+    """Canonical text of a shrinkage expression with its single count variable renamed to n."""
+    names = {x.id for x in ast.walk(value) if isinstance(x, ast.Name)} - {"np", "numpy", "math"}
+    if len(names) != 1:
+        return None
+    return canon(value, rename={names.pop(): "n"})
+
+
+def shrinkage_branches(fi):
+    """({mode literal: (canonical expression, node)}, name of the shrinkage variable) from the if/elif
+    chain on the expectation string; local names are irrelevant."""
     out = {}
+    var = None
     for n in walk_no_nested(fi.node):
         if isinstance(n, ast.If):
             p = compare_parts(n.test)
@@ -32,21 +48,23 @@ def shrinkage_branches(fi, nvar):
                 while True:
                     p = compare_parts(cur.test)
                     mode = p[2].value if p and isinstance(p[2], ast.Constant) else None
-                    asg = [s for s in cur.body if isinstance(s, ast.Assign) and isinstance(s.targets[0], ast.Name) and s.targets[0].id == "logt"]
-                    if mode is not None and len(asg) == 1:
-                        out[mode] = (canon(asg[0].value, rename={nvar: "n"}), asg[0])
+                    a = _single_target_assign([s for s in cur.body if not (isinstance(s, ast.Expr) and isinstance(s.value, ast.Constant))])
+                    if mode is not None and a is not None:
+                        out[mode] = (_canon_shrinkage(a.value), a)
+                        var = var or a.targets[0].id
+                        if a.targets[0].id != var:
+                            return {}, None
                     if len(cur.orelse) == 1 and isinstance(cur.orelse[0], ast.If):
                         cur = cur.orelse[0]
                         continue
-                    # plain else: the remaining mode
-                    asg = [s for s in cur.orelse if isinstance(s, ast.Assign) and isinstance(s.targets[0], ast.Name) and s.targets[0].id == "logt"]
-                    if len(asg) == 1:
+                    a = _single_target_assign([s for s in cur.orelse if not (isinstance(s, ast.Expr) and isinstance(s.value, ast.Constant))]) if cur.orelse and not any(isinstance(x, ast.Raise) for x in cur.orelse) else None
+                    if a is not None and a.targets[0].id == var:
                         other = [m for m in ("logt", "t") if m not in out]
                         if len(other) == 1:
-                            out[other[0]] = (canon(asg[0].value, rename={nvar: "n"}), asg[0])
+                            out[other[0]] = (_canon_shrinkage(a.value), a)
                     break
                 break
-    return out
+    return out, var
 
 
 def run(ctx):
@@ -61,8 +79,9 @@ def run(ctx):
     trap = ctx.fn("nessai.evidence:log_integrate_log_trap")
 
     # ---- C02.1 shrinkage agreement --------------------------------------
-    for f, nvar in ((inc, "nlive"), (glx, "nlive_per_iteration"), (cw, "nlive_per_iteration")):
-        br = shrinkage_branches(f, nvar)
+    tvar = {}
+    for f in (inc, glx, cw):
+        br, tvar[f.qual] = shrinkage_branches(f)
         ctx.require(set(br) == {"logt", "t"}, f"{f.qual}: could not read both shrinkage modes (found {sorted(br)})")
         for mode, (text, node) in sorted(br.items()):
             ctx.ob("R-SIB", "C02.1", f, f"expected shrinkage in mode '{mode}' is {EXPECTED[mode]}", text == EXPECTED[mode], f"canonical form `{text}` from `{src(node)}`", node=node)
@@ -76,16 +95,15 @@ def run(ctx):
     def arange_desc(call):
         return isinstance(call, ast.Call) and call_name(call) in ("np.arange", "numpy.arange") and len(call.args) == 3 and const(call.args[1], 0) and canon(call.args[2]) == "-1"
 
-    g_ar = [n for n in walk_no_nested(glx.node) if isinstance(n, ast.Assign) and arange_desc(n.value)]
-    ctx.ob("R-SIB", "C02.2", glx, "live-point volumes use counts nlive, nlive-1, ..., 1", len(g_ar) == 1 and src(g_ar[0].value.args[0]) == "nlive", f"`{src(g_ar[0]) if g_ar else None}`")
-    c_ar = [n for n in walk_no_nested(cw.node) if isinstance(n, ast.Assign) and arange_desc(n.value)]
-    okc = len(c_ar) == 1 and src(c_ar[0].value.args[0]) == "nlive" and isinstance(c_ar[0].targets[0], ast.Subscript) and canon(c_ar[0].targets[0].slice) == "-nlive:"
-    ctx.ob("R-SIB", "C02.2", cw, "one-pass weights: the last nlive samples get counts nlive, ..., 1", okc, f"`{src(c_ar[0]) if c_ar else None}`")
-    base = [n for n in walk_no_nested(cw.node) if isinstance(n, ast.Assign) and isinstance(n.targets[0], ast.Name) and n.targets[0].id == "nlive_per_iteration" and "ones_like" in src(n.value)]
-    ctx.ob("R-SIB", "C02.2", cw, "one-pass weights: all earlier samples get the constant count nlive", len(base) == 1 and canon(base[0].value) == "nlive * ones_like(samples)", f"`{src(base[0]) if base else None}`")
+    g_ar = find_stmt("$$v = arange(nlive, 0, -1)", glx.node)
+    ctx.ob("R-SIB", "C02.2", glx, "live-point volumes use counts nlive, nlive-1, ..., 1", len(g_ar) == 1, f"`{src(g_ar[0][0]) if g_ar else None}`")
+    c_ar = find_stmt("$$v[-nlive:] = arange(nlive, 0, -1)", cw.node)
+    ctx.ob("R-SIB", "C02.2", cw, "one-pass weights: the last nlive samples get counts nlive, ..., 1", len(c_ar) == 1, f"`{src(c_ar[0][0]) if c_ar else None}`")
+    base = find_stmt("$$v = nlive * ones_like(samples)", cw.node, c_ar[0][1] if c_ar else None)
+    ctx.ob("R-SIB", "C02.2", cw, "one-pass weights: all earlier samples get the constant count nlive (same array)", len(base) == 1, f"`{src(base[0][0]) if base else None}`")
     nsf = ctx.fn("nessai.samplers.nestedsampler:NestedSampler.finalise")
-    kws = [k for n in walk_no_nested(nsf.node) if isinstance(n, ast.Call) and call_name(n) == "self.state.increment" for k in n.keywords if k.arg == "nlive"]
-    ctx.ob("R-SIB", "C02.2", nsf, "incremental integrator receives the same schedule (self.nlive - i) when the run is finalised", len(kws) == 1 and canon(kws[0].value) == "self.nlive - i", f"`{src(kws[0].value) if kws else None}`")
+    kws = find_stmt("for $$i, $$p in enumerate(self.live_points):\n    self.state.increment($$p['logL'], nlive=self.nlive - $$i)\n    self.nested_samples.append($$p)", nsf.node)
+    ctx.ob("R-SIB", "C02.2", nsf, "incremental integrator receives the same schedule (self.nlive - i, i = 0, 1, ...) when the run is finalised", len(kws) == 1, "")
     ctx.floor("C02.2", 4)
 
     # ---- C02.3 boundary construction -----------------------------------------
@@ -106,22 +124,31 @@ def run(ctx):
         L, X, call = closing(f, "L", "X")
         ctx.ob("R-SIB", "C02.3", f, "trapezoid closed with a point at zero volume repeating the last likelihood: (L ++ [L[-1]], X ++ [-inf])",
                L == "array(self.logLs + [self.logLs[-1]])" and X == "array(self.log_vols + [-inf])", f"L=`{L}` X=`{X}`", node=call)
-    L, X, call = closing(cw, "L", "X")
-    # compute_weights builds the arrays imperatively: check the three stores into log_vols and the concatenation
-    stores = {canon(n.targets[0]): canon(n.value) for n in walk_no_nested(cw.node) if isinstance(n, ast.Assign) and isinstance(n.targets[0], ast.Subscript) and src(n.targets[0].value) == "log_vols"}
+    # compute_weights builds the volume array imperatively: identify it as the second argument of the integrator
     inl = single_assignments(cw.node)
-    okv = canon(inl.get("log_vols", ast.Constant(None)), inline={"n_vols": inl.get("n_vols", ast.Constant(None))}) == "zeros(len(samples) + 2)" and stores.get("log_vols[1:-1]") == "cumsum(logt)" and stores.get("log_vols[-1]") == "-inf"
-    ctx.ob("R-SIB", "C02.3", cw, "one-pass volumes: X[0]=0 (whole prior), X[1:-1]=cumsum(logt), X[-1]=-inf (closing point)", okv, f"log_vols={src(inl.get('log_vols'))}; stores {stores}")
-    ctx.ob("R-SIB", "C02.3", cw, "one-pass likelihoods: [-inf] ++ samples ++ [samples[-1]]", L in ("concatenate([array([-inf]), samples, array([samples[-1]])])",), f"`{L}`", node=call)
-    # posterior weights: L[1:-1] + logsubexp(X[:-1], X[1:])[:-1] - logZ
-    for f, Ln, Xn, Zn in ((lpw, "log_L", "log_vols", "log_Z"), (cw, "log_likelihoods", "log_vols", "log_evidence")):
-        inl = single_assignments(f.node)
-        lw = inl.get("log_w")
-        ctx.ob("R-SIB", "C02.3", f, "weights use the volume differences logsubexp(X[:-1], X[1:])", lw is not None and canon(lw) == f"logsubexp({Xn}[:-1], {Xn}[1:])", f"`{src(lw)}`")
-        terms = _weight_terms(f, Zn)
-        want = {f"{Ln}[1:-1]": 1, "log_w[:-1]": 1, Zn: -1}
-        ctx.ob("R-SIB", "C02.3", f, "log posterior weight = L_i + log(X_{i-1} - X_i) - log Z (rectangle weights shifted by one against L)", lin_eq(terms, want), f"linear form {({k: str(v) for k, v in (terms or {}).items()})}")
-    ctx.floor("C02.3", 9)
+    calls = [n for n in walk_no_nested(cw.node) if isinstance(n, ast.Call) and call_name(n) == "log_integrate_log_trap"]
+    ctx.require(len(calls) == 1 and isinstance(calls[0].args[1], ast.Name), "compute_weights: integrator call / volume array not found")
+    call = calls[0]
+    Xb = {"X": calls[0].args[1]}
+    tb = {"t": ast.Name(id=tvar[cw.qual], ctx=ast.Load())} if tvar.get(cw.qual) else {}
+    x0 = [n for n, b in find_stmt("$$X = $v", cw.node, Xb) if match_expr("zeros(len(samples) + 2)", b["v"], inline=inl) is not None]
+    okv = len(x0) == 1 and len(find_stmt("$$X[1:-1] = cumsum($$t)", cw.node, {**Xb, **tb})) == 1 and len(find_stmt("$$X[-1] = -inf", cw.node, Xb)) == 1 and bool(tb)
+    ctx.ob("R-SIB", "C02.3", cw, "one-pass volumes: X[0]=0 (whole prior), X[1:-1]=cumsum(shrinkage), X[-1]=-inf (closing point)", okv, "")
+    L = canon(calls[0].args[0], inline=inl)
+    ctx.ob("R-SIB", "C02.3", cw, "one-pass likelihoods: [-inf] ++ samples ++ [samples[-1]]", L == "concatenate([array([-inf]), samples, array([samples[-1]])])", f"`{L}`", node=call)
+    # posterior weights: L[1:-1] + logsubexp(X[:-1], X[1:])[:-1] - logZ, with every single-assignment local inlined
+    Ls = "array(self.logLs + [self.logLs[-1]])"
+    Xs = "array(self.log_vols + [-inf])"
+    want_state = {f"{Ls}[1:-1]": 1, f"logsubexp({Xs}[:-1], {Xs}[1:])[:-1]": 1, f"log_integrate_log_trap({Ls}, {Xs})": -1}
+    terms = _returned_weight_terms(lpw, None)
+    ctx.ob("R-SIB", "C02.3", lpw, "log posterior weight = L_i + log(X_{i-1} - X_i) - log Z (rectangle weights shifted by one against L)", lin_eq(terms, want_state), f"linear form {({k: str(v) for k, v in (terms or {}).items()})}")
+    Lc = "concatenate([array([-inf]), samples, array([samples[-1]])])"
+    want_cw = {f"{Lc}[1:-1]": 1, "logsubexp(X[:-1], X[1:])[:-1]": 1, f"log_integrate_log_trap({Lc}, X)": -1}
+    terms = _returned_weight_terms(cw, src(calls[0].args[1]))
+    ctx.ob("R-SIB", "C02.3", cw, "one-pass log posterior weight = L_i + log(X_{i-1} - X_i) - log Z, with the same shift", lin_eq(terms, want_cw), f"linear form {({k: str(v) for k, v in (terms or {}).items()})}")
+    rets = [n for n in walk_no_nested(cw.node) if isinstance(n, ast.Return)]
+    ctx.ob("R-SIB", "C02.3", cw, "the returned evidence is the closed trapezoid over the same arrays", len(rets) == 1 and isinstance(rets[0].value, ast.Tuple) and canon(rets[0].value.elts[0], inline=inl, rename={src(calls[0].args[1]): "X"}) == f"log_integrate_log_trap({Lc}, X)", "")
+    ctx.floor("C02.3", 8)
 
     # ---- C02.5 quadrature forms ---------------------------------------------
     inl = single_assignments(trap.node)
@@ -136,18 +163,20 @@ def run(ctx):
     guards = [n for n in walk_no_nested(lse.node) if isinstance(n, ast.If) and canon(n.test) in ("any(x < y)", "any(y > x)") and any(isinstance(x, ast.Raise) for x in n.body)]
     ctx.ob("R-SIB", "C02.5", lse, "logsubexp refuses x < y (log of a negative number)", len(guards) == 1, "")
     inl = single_assignments(inc.node)
-    wt = inl.get("Wt")
-    ctx.ob("R-SIB", "C02.5", inc, "rectangle rule: Wt = log X_{i-1} + logL + log(1 - t)", wt is not None and lin_eq(linform(wt), {"self.logw": 1, "logL": 1, "log1p(-exp(logt))": 1}), f"`{src(wt)}`")
-    zs = [n for n in walk_no_nested(inc.node) if isinstance(n, ast.Assign) and any(is_self_attr(t, "logZ") for t in n.targets)]
-    ctx.ob("R-SIB", "C02.5", inc, "evidence accumulated in log space: logZ = logaddexp(logZ, Wt)", len(zs) == 1 and canon(zs[0].value) == "logaddexp(Wt, self.logZ)", f"`{src(zs[0]) if zs else None}`")
+    zs = find_stmt("self.logZ = logaddexp($$W, self.logZ)", inc.node)
+    ctx.ob("R-SIB", "C02.5", inc, "evidence accumulated in log space: logZ = logaddexp(logZ, weight)", len(zs) == 1, "")
+    wt = inl.get(zs[0][1]["W"].id) if zs else None
+    tv = tvar.get(inc.qual) or "?"
+    ctx.ob("R-SIB", "C02.5", inc, "rectangle rule: weight = log X_{i-1} + logL + log(1 - t)", wt is not None and lin_eq(linform(wt, rename={tv: "T"}), {"self.logw": 1, "logL": 1, "log1p(-exp(T))": 1}), f"`{src(wt)}`")
     ctx.floor("C02.5", 5)
 
     # ---- C02.6 volumes decrease: order of the updates in increment -------------
     fa = FA(inc)
     upd = fa.find(lambda s: isinstance(s, ast.AugAssign) and is_self_attr(s.target, "logw"))
     app = fa.find_calls("self.log_vols.append")
-    wts = fa.find(lambda s: isinstance(s, ast.Assign) and isinstance(s.targets[0], ast.Name) and s.targets[0].id == "Wt")
-    ok = len(upd) == 1 and len(app) == 1 and len(wts) == 1 and isinstance(fa.stmt(upd[0]).op, ast.Add) and src(fa.stmt(upd[0]).value) == "logt" and src(app[0][1].args[0]) == "self.logw" \
+    wname = zs[0][1]["W"].id if zs else None
+    wts = fa.find(lambda s: isinstance(s, ast.Assign) and isinstance(s.targets[0], ast.Name) and s.targets[0].id == wname)
+    ok = len(upd) == 1 and len(app) == 1 and len(wts) == 1 and isinstance(fa.stmt(upd[0]).op, ast.Add) and src(fa.stmt(upd[0]).value) == tv and src(app[0][1].args[0]) == "self.logw" \
         and fa.dominates(wts[0], upd[0]) and fa.dominates(upd[0], app[0][0]) and fa.once(upd[0]) and fa.once(app[0][0]) and fa.on_every_normal_path(app[0][0])
     ctx.ob("R-ORDER", "C02.6", inc, "each increment: weight uses the volume before shrinking, then logw += logt (negative), then the new volume is recorded - exactly once", ok, "")
     lapp = fa.find_calls("self.logLs.append")
@@ -192,16 +221,26 @@ def run(ctx):
     ctx.assumptions += ["exact arithmetic for the offset clause (floating-point agreement with arbitrary precision is not decided)", "numpy/scipy semantics of logaddexp, logsumexp, log1p, cumsum"]
 
 
-def _weight_terms(f, Zn):
-    """Linear form of the final log_post_w (following `-=`)."""
-    total = None
-    for n in sorted([x for x in walk_no_nested(f.node) if isinstance(x, ast.stmt)], key=lambda x: x.lineno):
-        if isinstance(n, ast.Assign) and isinstance(n.targets[0], ast.Name) and n.targets[0].id == "log_post_w":
-            total = linform(n.value)
-        elif isinstance(n, ast.AugAssign) and isinstance(n.target, ast.Name) and n.target.id == "log_post_w" and total is not None:
-            from ..lin import lin_add, lin_sub
-            total = lin_sub(total, linform(n.value)) if isinstance(n.op, ast.Sub) else (lin_add(total, linform(n.value)) if isinstance(n.op, ast.Add) else None)
-    return total
+def _returned_weight_terms(f, xname):
+    """Linear form of the returned log posterior weights with single-assignment locals inlined;
+    `xname` (the imperatively built volume array, if any) is renamed to X."""
+    inl = single_assignments(f.node)
+    rets = [n for n in walk_no_nested(f.node) if isinstance(n, ast.Return)]
+    if len(rets) != 1:
+        return None
+    rv = rets[0].value.elts[-1] if isinstance(rets[0].value, ast.Tuple) else rets[0].value
+    ren = {xname: "X"} if xname else {}
+    if isinstance(rv, ast.Name) and rv.id not in inl:
+        # built by `w = a + b` followed by `w -= c`
+        from ..lin import lin_add, lin_sub
+        total = None
+        for n in sorted([x for x in walk_no_nested(f.node) if isinstance(x, ast.stmt)], key=lambda x: x.lineno):
+            if isinstance(n, ast.Assign) and isinstance(n.targets[0], ast.Name) and n.targets[0].id == rv.id:
+                total = linform(n.value, inline=inl, rename=ren)
+            elif isinstance(n, ast.AugAssign) and isinstance(n.target, ast.Name) and n.target.id == rv.id and total is not None:
+                total = lin_sub(total, linform(n.value, inline=inl, rename=ren)) if isinstance(n.op, ast.Sub) else (lin_add(total, linform(n.value, inline=inl, rename=ren)) if isinstance(n.op, ast.Add) else None)
+        return total
+    return linform(rv, inline=inl, rename=ren)
 
 
 CLAIM = {
